@@ -64,6 +64,8 @@ func c10Guards(p *chk.Prog, r *chk.Report) {
 	g := f.Graph()
 	pool, nodes, eps, svc := isParam(f, "pool"), isParam(f, "nodes"), isParam(f, "epSlices"), isParam(f, "svc")
 	me := func(e ast.Expr) bool { return f.MatchWith("RECV.myNode", e, chk.H("RECV", isRecv(f))) != nil }
+	// the node predicate handed to hasHealthyEndpoint is read with the polarity hasHealthyEndpoint gives it
+	skipWhen, _ := c10SkipPolarity(p)
 	acceptAll := func(e ast.Expr) bool {
 		lit := funcLitOf(f, g, e)
 		if lit == nil {
@@ -72,7 +74,7 @@ func c10Guards(p *chk.Prog, r *chk.Report) {
 		lf := f.LitFn(lit)
 		rets := lf.Graph().Returns()
 		for _, rt := range rets {
-			if len(retResults(rt)) != 1 || !lf.IsConstBool(retResults(rt)[0], false) {
+			if len(retResults(rt)) != 1 || !lf.IsConstBool(retResults(rt)[0], !skipWhen) {
 				return false
 			}
 		}
@@ -87,32 +89,13 @@ func c10Guards(p *chk.Prog, r *chk.Report) {
 		lg := lf.Graph()
 		par := lf.Info().Defs[lit.Type.Params.List[0].Names[0]]
 		isPar := func(y ast.Expr) bool { return lf.ObjOf(y) == par }
-		rej := lg.GPat(true, "P == nil || *P != RECV.myNode", chk.H("P", isPar))
-		nt := 0
-		for _, rt := range lg.Returns() {
-			res := retResults(rt)
-			if len(res) != 1 {
-				return false
-			}
-			switch {
-			case lf.IsConstBool(res[0], true):
-				nt++
-				if !lg.Dominated(rt, rej) {
-					return false
-				}
-			case lf.IsConstBool(res[0], false):
-				if !lg.Dominated(rt, lg.GPat(false, "P == nil || *P != RECV.myNode", chk.H("P", isPar))) {
-					return false
-				}
-			default:
-				// `return P == nil || *P != c.myNode`
-				if lf.MatchWith("P == nil || *P != RECV.myNode", res[0], chk.H("P", isPar)) == nil {
-					return false
-				}
-				nt++
-			}
+		// left out exactly when the node is unknown or another node
+		other := chk.GOr(lg.GPat(true, "P == nil", chk.H("P", isPar)), lg.GPat(false, "*P == RECV.myNode", chk.H("P", isPar)),
+			lg.GPat(false, "RECV.myNode == *P", chk.H("P", isPar)))
+		if !skipWhen {
+			other = chk.GNot(other)
 		}
-		return nt > 0
+		return lg.BoolResultIs(other) == ""
 	}
 	// the pool test written in place (the helper is a loop over the pool's BGP advertisements looking for one whose
 	// Nodes contains the node): the comparison for an element of that list, carried by the found-flag of the loop
@@ -283,25 +266,8 @@ func c10Sticky(p *chk.Prog, r *chk.Report) {
 	for _, fs := range falses {
 		x.Check("hasHealthyEndpoint:false:cannot-serve", fs.Pos(), g.Dominated(fs, cannot), "", "an address is vetoed by an entry that can serve")
 	}
-	// filter applied to the endpoint's node
-	es := g.EdgesImplying(chk.GAnyOf(
-		g.GPat(true, "F(EP.NodeName)", chk.H("F", filter), chk.H("EP", ep)),
-		g.GPat(true, "F(N)", chk.H("F", filter), chk.H("N", definedBy(g, "EP.NodeName", chk.H("EP", ep))))))
-	okF := len(es) == 1
-	if okF {
-		// the filtered edge never reaches the address loop of this entry
-		start := chk.Site{G: g, B: es[0].B.Succs[es[0].K], I: 0}
-		w := (&chk.Walk{G: g, From: start, Inclusive: true, Hit: func(n ast.Node) bool { return n == ast.Node(addrLoop.X) },
-			Cut: func(b *cfgBlock, k int) bool { lb, _, _ := g.RangeBlocks(epLoop); return b == lb }}).Run()
-		okF = !w.Found
-		// and the address loop is dominated by the filter's false edge
-		xs := g.Find(func(n ast.Node) bool { return n == ast.Node(addrLoop.X) })
-		if len(xs) == 1 {
-			okF = okF && g.Dominated(xs[0], chk.GAnyOf(
-				g.GPat(false, "F(EP.NodeName)", chk.H("F", filter), chk.H("EP", ep)),
-				g.GPat(false, "F(N)", chk.H("F", filter), chk.H("N", definedBy(g, "EP.NodeName", chk.H("EP", ep))))))
-		}
-	}
+	// filter applied to the endpoint's node (with either polarity: entries with F(node) == skip never reach the addresses)
+	okF := c10FilterSkips(f, g, filter, ep, epLoop, addrLoop, true) || c10FilterSkips(f, g, filter, ep, epLoop, addrLoop, false)
 	x.Check("hasHealthyEndpoint:filter-applied", epLoop.Pos(), okF, "", "entries rejected by the node filter still contribute addresses")
 	// result
 	nt := 0
@@ -320,4 +286,58 @@ func c10Sticky(p *chk.Prog, r *chk.Report) {
 		}
 	}
 	x.Check("hasHealthyEndpoint:has-true-result", f.Pos(), nt == 1, "", "unexpected shape")
+}
+
+// c10FilterSkips: in hasHealthyEndpoint the entries for which F(ep.NodeName) == skip never reach the address loop, and the
+// address loop is only reached with F(ep.NodeName) == !skip.
+func c10FilterSkips(f *chk.Fn, g *chk.Graph, filter, ep func(ast.Expr) bool, epLoop, addrLoop *ast.RangeStmt, skip bool) bool {
+	es := g.EdgesImplying(chk.GAnyOf(
+		g.GPat(skip, "F(EP.NodeName)", chk.H("F", filter), chk.H("EP", ep)),
+		g.GPat(skip, "F(N)", chk.H("F", filter), chk.H("N", definedBy(g, "EP.NodeName", chk.H("EP", ep))))))
+	if len(es) != 1 {
+		return false
+	}
+	// the filtered edge never reaches the address loop of this entry
+	start := chk.Site{G: g, B: es[0].B.Succs[es[0].K], I: 0}
+	w := (&chk.Walk{G: g, From: start, Inclusive: true, Hit: func(n ast.Node) bool { return n == ast.Node(addrLoop.X) },
+		Cut: func(b *cfgBlock, k int) bool { lb, _, _ := g.RangeBlocks(epLoop); return b == lb }}).Run()
+	if w.Found {
+		return false
+	}
+	// and the address loop is dominated by the other edge of the filter
+	xs := g.Find(func(n ast.Node) bool { return n == ast.Node(addrLoop.X) })
+	if len(xs) != 1 {
+		return false
+	}
+	return g.Dominated(xs[0], chk.GAnyOf(
+		g.GPat(!skip, "F(EP.NodeName)", chk.H("F", filter), chk.H("EP", ep)),
+		g.GPat(!skip, "F(N)", chk.H("F", filter), chk.H("N", definedBy(g, "EP.NodeName", chk.H("EP", ep))))))
+}
+
+// c10SkipPolarity: the value of the node predicate for which hasHealthyEndpoint leaves an entry out (true on the pinned
+// tree: the parameter is a filter; false when it is written as a selector). known is false when neither holds.
+func c10SkipPolarity(p *chk.Prog) (skip bool, known bool) {
+	f := p.LookupFunc("speaker", "", "hasHealthyEndpoint")
+	if f == nil {
+		return true, false
+	}
+	g := f.Graph()
+	trues := g.Find(f.IsAssignPat("R[A]", "true"))
+	if len(trues) != 1 {
+		return true, false
+	}
+	addrLoop, _ := f.LoopOf(trues[0].Node).(*ast.RangeStmt)
+	if addrLoop == nil {
+		return true, false
+	}
+	epLoop, _ := f.LoopOf(addrLoop).(*ast.RangeStmt)
+	if epLoop == nil {
+		return true, false
+	}
+	for _, s := range []bool{true, false} {
+		if c10FilterSkips(f, g, isParamIdx(f, 1), rangeVal(f, epLoop), epLoop, addrLoop, s) {
+			return s, true
+		}
+	}
+	return true, false
 }
